@@ -56,6 +56,7 @@ type poolReader struct {
 type poolRun struct {
 	v       *pipeline.VerifPool
 	kind    string
+	nohb    bool
 	cap     int
 	mu      sync.Mutex
 	readers []*poolReader
@@ -94,7 +95,14 @@ func poolGate(point string, a, b uint64) {
 
 func newPoolRun(kind string, capacity, n int) *poolRun {
 	run := &poolRun{kind: kind, cap: capacity, goids: map[int64]*poolReader{}}
-	run.v = pipeline.VerifNewPool(kind, capacity, poolWakeup)
+	wake := poolWakeup
+	if strings.HasSuffix(kind, "-nohb") {
+		// heartbeat practically off: whatever resumes a reader must come from back() itself
+		run.nohb = true
+		run.kind = strings.TrimSuffix(kind, "-nohb")
+		wake = time.Hour
+	}
+	run.v = pipeline.VerifNewPool(run.kind, capacity, wake)
 	ready := make(chan struct{})
 	for i := 0; i < n; i++ {
 		r := &poolReader{id: i, cmd: make(chan string, 1), st: "idle"}
@@ -174,7 +182,11 @@ func (run *poolRun) snap() poolSnap {
 
 // settle waits for heartbeat rounds and then for a stable, explainable snapshot.
 func (run *poolRun) settle() (poolSnap, bool) {
-	time.Sleep(3 * poolWakeup)
+	if run.nohb {
+		time.Sleep(300 * time.Microsecond)
+	} else {
+		time.Sleep(3 * poolWakeup)
+	}
 	deadline := time.Now().Add(1500 * time.Millisecond)
 	var prev poolSnap
 	stable := 0
@@ -359,7 +371,8 @@ func execPoolGated(t *hx.Toks) string {
 	kind := t.Next()
 	capacity := t.Int()
 	n := t.Int()
-	if t.Err != nil || (kind != "std" && kind != "lowmem") || capacity < 1 || capacity > 64 || n < 1 || n > 64 {
+	base := strings.TrimSuffix(kind, "-nohb")
+	if t.Err != nil || (base != "std" && base != "lowmem") || capacity < 1 || capacity > 64 || n < 1 || n > 64 {
 		return "bad-case"
 	}
 	var ops []string
@@ -418,6 +431,21 @@ func genPoolGated(w *bufio.Writer, rng *hx.Rng, tier, cmd string) {
 		}
 	}
 	rec(nil)
+	// heartbeat off, no gates: back() alone must resume the parked readers
+	for i := 0; i < nrand/3; i++ {
+		k := kinds[rng.Intn(2)] + "-nohb"
+		c := rng.Range(1, 4)
+		n := c + rng.Range(1, 3)
+		var ops []string
+		for j := rng.Range(5, 16); j > 0; j-- {
+			if rng.Chance(1, 2) {
+				ops = append(ops, fmt.Sprintf("g%d", rng.Intn(n)))
+			} else {
+				ops = append(ops, fmt.Sprintf("b%d", rng.Intn(n)))
+			}
+		}
+		fmt.Fprintf(w, "%s %s %d %d %s\n", cmd, k, c, n, strings.Join(ops, " "))
+	}
 	// random schedules
 	for i := 0; i < nrand; i++ {
 		k := kinds[rng.Intn(2)]
